@@ -94,12 +94,12 @@ type typeSpec struct {
 	XMLName bool
 }
 
-var tagNames = []string{"query", "param", "form", "header", "cookie", "uri", "path", "json", "xml", "cbor"}
+var tagNames = []string{"query", "param", "form", "header", "respHeader", "cookie", "uri", "path", "json", "xml", "cbor"}
 
 // Every source tag carries its own wire name (Zqa -> "Zqaq" for query, "Zqaf" for form, ...), so
 // that a decoder working with the alias tag of another source (pooled decoders are per tag)
 // cannot go unnoticed. Keys under test (family "keys") are used verbatim for every tag.
-var tagSuffix = map[string]string{"query": "q", "param": "q", "form": "f", "header": "h", "cookie": "c", "uri": "u", "path": "u",
+var tagSuffix = map[string]string{"respHeader": "r", "query": "q", "param": "q", "form": "f", "header": "h", "cookie": "c", "uri": "u", "path": "u",
 	"json": "j", "xml": "x", "cbor": "b"}
 
 var sourceTag = [nSources]string{"query", "form", "form", "header", "cookie", "json", "xml", "cbor"}
